@@ -21,7 +21,13 @@ import (
 // exactly the bindings that were granted and not deleted, whatever the interleaving - and the
 // authorisation of writes follows it: a peer whose delete was answered with success is refused,
 // a peer whose bind was answered with success is served.
-func RegistryMix(t *testing.T, prop string) {
+func RegistryMix(t *testing.T, prop string) { registryMix(t, prop, "binding") }
+
+// SubscriptionMix is RegistryMix for the subscription registry (the probe afterwards is a data
+// change: exactly the subscribed features are notified).
+func SubscriptionMix(t *testing.T, prop string) { registryMix(t, prop, "subscription") }
+
+func registryMix(t *testing.T, prop, registry string) {
 	rounds := world.EnvInt("VERIF_ROUNDS", 300)
 	world.Guard(func() {
 		for r := 0; r < rounds; r++ {
@@ -36,17 +42,21 @@ func RegistryMix(t *testing.T, prop string) {
 			if pattern == 0 {
 				pattern = 7
 			}
+			add, del := world.BindCall, world.UnbindCall
+			if registry == "subscription" {
+				add, del = world.SubscribeCall, world.UnsubscribeCall
+			}
 			want := map[regs.Key]bool{}
 			msgs := make([]model.DatagramType, 3)
 			for p, c := range calls {
 				peer := w.Peers[p]
 				if pattern&(1<<p) != 0 {
-					if !peer.CallOK(world.BindCall(w.ClientAddr(c), w.ServerAddr(c), c.Type)) {
-						t.Fatalf("harness: binding of peer %d not granted", p+1)
+					if !peer.CallOK(add(w.ClientAddr(c), w.ServerAddr(c), c.Type)) {
+						t.Fatalf("harness: %s of peer %d not granted", registry, p+1)
 					}
-					msgs[p] = peer.Msg(model.CmdClassifierTypeCall, peer.NM(), world.LocalNM(), true, nil, world.UnbindCall(w.ClientAddr(c), w.ServerAddr(c)))
+					msgs[p] = peer.Msg(model.CmdClassifierTypeCall, peer.NM(), world.LocalNM(), true, nil, del(w.ClientAddr(c), w.ServerAddr(c)))
 				} else {
-					msgs[p] = peer.Msg(model.CmdClassifierTypeCall, peer.NM(), world.LocalNM(), true, nil, world.BindCall(w.ClientAddr(c), w.ServerAddr(c), c.Type))
+					msgs[p] = peer.Msg(model.CmdClassifierTypeCall, peer.NM(), world.LocalNM(), true, nil, add(w.ClientAddr(c), w.ServerAddr(c), c.Type))
 					want[c.Key()] = true
 				}
 			}
@@ -63,7 +73,7 @@ func RegistryMix(t *testing.T, prop string) {
 				}()
 			}
 			close(start)
-			world.WaitOrDiagnose(t, &wg, prop+"/concurrent", fmt.Sprintf("binds and binding deletes for different server features at once (round %d, pattern %03b)", r, pattern))
+			world.WaitOrDiagnose(t, &wg, prop+"/concurrent", fmt.Sprintf("%s requests and deletes for different server features at once (round %d, pattern %03b)", registry, r, pattern))
 			w.Sync()
 			for p := range calls {
 				ok := 0
@@ -77,12 +87,49 @@ func RegistryMix(t *testing.T, prop string) {
 				}
 			}
 			got, _ := w.Bindings()
+			if registry == "subscription" {
+				got, _ = w.Subscriptions()
+			}
 			if !regs.KeysEqual(got, want) {
-				kind := "deleted-binding-back"
+				kind := "deleted-" + registry + "-back"
 				if len(got) < len(want) {
-					kind = "granted-binding-lost"
+					kind = "granted-" + registry + "-lost"
 				}
-				world.Fail(t, prop+"/concurrent/"+kind, "round %d: three peers, each with a request for its own server feature at the same moment (pattern %03b: set bits delete an existing binding, the others bind); every request was answered with success, but the registry holds %v, expected %v", r, pattern, regs.SortedKeys(got), regs.SortedKeys(want))
+				world.Fail(t, prop+"/concurrent/"+kind, "round %d: three peers, each with a request for its own server feature at the same moment (pattern %03b: set bits delete an existing entry, the others add one); every request was answered with success, but the registry holds %v, expected %v", r, pattern, regs.SortedKeys(got), regs.SortedKeys(want))
+			}
+			if registry == "subscription" {
+				// the fan-out follows the registry: a data change on each server feature notifies exactly
+				// the peer whose subscription is in force
+				for p, c := range calls {
+					for _, q := range w.Peers {
+						q.Cap.Drain()
+					}
+					f := gen.ByFunction(w.Servers[p].Writable)
+					it := reflect.New(f.ItemType).Elem()
+					for _, k := range f.KeyFields {
+						gen.SetKey(it, k, uint64(2+r%2))
+					}
+					w.Servers[p].F.SetData(f.Fn, refmodel.Payload(f, []reflect.Value{it}))
+					w.Sync()
+					for qi, q := range w.Peers {
+						n := 0
+						for _, sn := range q.Cap.Drain() {
+							if sn.Classifier() == model.CmdClassifierTypeNotify {
+								n++
+							}
+						}
+						wantN := 0
+						if qi == p && want[c.Key()] {
+							wantN = 1
+						}
+						if n != wantN {
+							world.Fail(t, prop+"/concurrent/fanout-after-mix", "round %d (pattern %03b): a data change on server feature %d sent %d notifications to peer %d, expected %d (registry: %v)", r, pattern, p, n, qi+1, wantN, regs.SortedKeys(got))
+						}
+					}
+				}
+				world.Record(world.Hash("submix", r), true, fmt.Sprintf("stress/submix/deletes-%d", bitsSet(pattern)))
+				w.Teardown()
+				continue
 			}
 			// authorisation follows the registry
 			for p, c := range calls {
